@@ -578,15 +578,19 @@ where
             TsType::TsIndexedAccessType(TsIndexedAccessType {
                 obj_type,
                 index_type,
+                span,
                 ..
             }) => {
-                if let Some(ty) = self.resolve_indexed_access(obj_type, index_type) {
-                    self.resolve_type_elements(&ty, props);
-                } else {
-                    HANDLER.with(|handler| {
-                        handler.span_err(ty.span(), "Unresolvable type.");
-                    });
-                }
+                // the member type may refer back to this very indexed access
+                self.resolve_reference(&indexed_access_key(obj_type, index_type), *span, || {
+                    if let Some(ty) = self.resolve_indexed_access(obj_type, index_type) {
+                        self.resolve_type_elements(&ty, props);
+                    } else {
+                        HANDLER.with(|handler| {
+                            handler.span_err(ty.span(), "Unresolvable type.");
+                        });
+                    }
+                });
             }
             TsType::TsFnOrConstructorType(TsFnOrConstructorType::TsFnType(TsFnType {
                 params,
@@ -1119,11 +1123,15 @@ where
             TsType::TsIndexedAccessType(TsIndexedAccessType {
                 obj_type,
                 index_type,
+                span,
                 ..
             }) => {
-                if let Some(ty) = self.resolve_indexed_access(obj_type, index_type) {
-                    runtime_types.extend(self.infer_runtime_type(&ty));
-                }
+                // the member type may refer back to this very indexed access
+                self.resolve_reference(&indexed_access_key(obj_type, index_type), *span, || {
+                    if let Some(ty) = self.resolve_indexed_access(obj_type, index_type) {
+                        runtime_types.extend(self.infer_runtime_type(&ty));
+                    }
+                });
             }
             TsType::TsOptionalType(TsOptionalType { type_ann, .. }) => {
                 runtime_types.extend(self.infer_runtime_type(type_ann));
@@ -1215,6 +1223,30 @@ where
             }
             _ => None,
         }
+    }
+}
+
+/// Key under which the indexed access `Obj[index]` is tracked while it is being resolved
+/// (distinct from the key of the named type itself).
+fn indexed_access_key(obj_type: &TsType, index_type: &TsType) -> (Atom, SyntaxContext) {
+    let index = match index_type {
+        TsType::TsLitType(TsLitType {
+            lit: TsLit::Str(str),
+            ..
+        }) => str.value.to_string(),
+        TsType::TsLitType(TsLitType {
+            lit: TsLit::Number(num),
+            ..
+        }) => num.value.to_string(),
+        TsType::TsKeywordType(keyword) => format!("{:?}", keyword.kind),
+        _ => String::from("*"),
+    };
+    match obj_type {
+        TsType::TsTypeRef(TsTypeRef {
+            type_name: TsEntityName::Ident(ident),
+            ..
+        }) => (Atom::from(format!("{}[{}]", ident.sym, index)), ident.ctxt),
+        _ => (Atom::from(format!("[{}]", index)), SyntaxContext::empty()),
     }
 }
 
